@@ -40,11 +40,15 @@ let make_oracles (tab : string list) =
   (scrypt, enc, dec)
 
 let err_s = function EEnc -> "ERR enc" | EKey -> "ERR key" | EValue -> "ERR value" | EAssert -> "ERR assert"
-                     | EOther -> "ERR other"
+                     | EOther -> "ERR other" | EType -> "ERR type"
 let flag s = s = "1"
 let optz s = if s = "-" then None else Some (z_of s)
 let s_optz = function None -> "-" | Some z -> str_z z
-let pw a b = (bytes_of_hex a, bytes_of_hex b)
+(* passphrase argument: "<hex utf8 as written> <hex utf8 of NFC form>" for a str, "b:<hex> <hex>" for a bytes object *)
+let pw a b =
+  if String.length a >= 2 && String.sub a 0 2 = "b:" then PBytes (bytes_of_hex (String.sub a 2 (String.length a - 2)))
+  else PStr (bytes_of_hex a, bytes_of_hex b)
+let first_byte l = match l with x :: _ -> x | [] -> failwith "flag"
 
 let ops_of_tok t =
   if t = "-" then []
@@ -69,6 +73,11 @@ let dispatch toks =
         (match x_key_encrypt scrypt aenc (bytes_of_hex pfx) (flag c) (z_of k) (pw pwr pwn) with
          | Some e -> "OK " ^ ascii_of_bytes e
          | None -> "ERR other")
+    | ["encfn"; priv; akind; addr; fl; pwr; pwn] ->
+        (* bip38_encrypt(private_hex, address, password, flagbyte) called directly; address as str (s) or bytes (b) *)
+        let a = if akind = "b" then PBytes (bytes_of_hex addr) else PStr (bytes_of_hex addr, bytes_of_hex addr) in
+        "OK " ^ ascii_of_bytes (x_encrypt_call scrypt aenc (bytes_of_hex priv) a (pw pwr pwn)
+                                   (first_byte (bytes_of_hex (if fl = "def" then "e0" else fl))))
     | ["spec_enc"; _kfmt; k; c; _nw; pfx; pwr; pwn] ->
         (match x_spec_encrypt scrypt aenc (bytes_of_hex pfx) (flag c) (z_of k) (pw pwr pwn) with
          | Some e -> "OK " ^ ascii_of_bytes e
